@@ -156,6 +156,14 @@ def r20_2(ctx):
                 rhs = strip_transparent(n["r"])
                 if rhs.get("k") == "Field" and rhs["name"] == "define_component" and local_of(rhs["e"]) is not None:
                     continue    # hand-over of the pre-pass's record to the visitor (R16.4 checks where it happens); not a new fact
+                lo = local_of(rhs)
+                if lo is not None:
+                    # the same hand-over through a destructuring `let Collector { define_component, .. } = collector;`
+                    from .hirflow import HirIndex as _HI
+                    b = _HI(hb).binding.get(lo[1])
+                    if b and b["kind"] == "let" and b.get("path") and str(b["path"][-1][-1]) == "define_component" and b["path"][-1][0] == "field" \
+                            and b.get("init") is not None and local_of(strip_transparent(b["init"])) is not None:
+                        continue
                 writers.append((hb, n))
     if len(writers) != 1:
         r.ob("define_component has exactly one writer", False, "-", "%d writer(s)" % len(writers))
